@@ -34,17 +34,27 @@ typedef enum {
 #define atomic_load_explicit(addr, order) (*(addr))
 #define atomic_store_explicit(addr, val, order) (*(addr) = (val))
 
-#define atomic_fetch_add(obj, val) (*(obj) += (val))
-#define atomic_fetch_sub(obj, val) (*(obj) -= (val))
-#define atomic_fetch_or(obj, val) (*(obj) |= (val))
-#define atomic_fetch_xor(obj, val) (*(obj) ^= (val))
-#define atomic_fetch_and(obj, val) (*(obj) &= (val))
+// atomic_fetch_* return the value the object held before the operation
+// (C11 7.17.7.5), not the result of the compound assignment.
+#define __atomic_fetch_op(obj, val, op) ({                              \
+  typeof(obj) __p = (obj);                                              \
+  typeof(val) __v = (val);                                              \
+  typeof(*__p) __old = *__p;                                            \
+  while (!__builtin_compare_and_swap(__p, &__old, __old op __v));       \
+  __old;                                                                \
+})
 
-#define atomic_fetch_add_explicit(obj, val, order) (*(obj) += (val))
-#define atomic_fetch_sub_explicit(obj, val, order) (*(obj) -= (val))
-#define atomic_fetch_or_explicit(obj, val, order) (*(obj) |= (val))
-#define atomic_fetch_xor_explicit(obj, val, order) (*(obj) ^= (val))
-#define atomic_fetch_and_explicit(obj, val, order) (*(obj) &= (val))
+#define atomic_fetch_add(obj, val) __atomic_fetch_op((obj), (val), +)
+#define atomic_fetch_sub(obj, val) __atomic_fetch_op((obj), (val), -)
+#define atomic_fetch_or(obj, val) __atomic_fetch_op((obj), (val), |)
+#define atomic_fetch_xor(obj, val) __atomic_fetch_op((obj), (val), ^)
+#define atomic_fetch_and(obj, val) __atomic_fetch_op((obj), (val), &)
+
+#define atomic_fetch_add_explicit(obj, val, order) __atomic_fetch_op((obj), (val), +)
+#define atomic_fetch_sub_explicit(obj, val, order) __atomic_fetch_op((obj), (val), -)
+#define atomic_fetch_or_explicit(obj, val, order) __atomic_fetch_op((obj), (val), |)
+#define atomic_fetch_xor_explicit(obj, val, order) __atomic_fetch_op((obj), (val), ^)
+#define atomic_fetch_and_explicit(obj, val, order) __atomic_fetch_op((obj), (val), &)
 
 #define atomic_compare_exchange_weak(p, old, new) \
   __builtin_compare_and_swap((p), (old), (new))
